@@ -1,29 +1,45 @@
 #!/usr/bin/env python3
-"""Run the Kani harnesses of /verif/kani/crate against a scratch copy of /repo's current working tree.
+"""Run the Kani harnesses of /verif/kani/crate against a scratch copy of the repo's current working tree.
 
   python3 /verif/kani/run_kani.py --props C12[,C13] [--tier quick|thorough] [--harness NAME ...]
                                   [--jobs N] --out <json path>
+
+Repo: $VERIF_REPO (default /repo), overridable with --repo.  Never written to.
 
 Selection: harnesses whose `props` intersect --props (all if --props is omitted), restricted to tier=quick
 for `--tier quick` (default) and to quick+thorough for `--tier thorough`; `--harness` restricts further to
 the named harnesses (and then ignores the tier, so a thorough harness can be run by name).
 
-What it does: rsync /repo (without target/, .git/) to a fresh directory under $TMPDIR or /var/tmp, append
-shim/frost_core_verif_shim.rs to the COPY's frost-core/src/lib.rs, rewrite the COPY's root Cargo.toml to
-members = ["frost-core", "verif-kani"], install crate/ as verif-kani, pre-build once, run every selected
-harness as its own `cargo kani` process under a wall-clock cap, parse the output, write JSON, delete the
-scratch tree (also on failure / SIGINT / SIGTERM).  Nothing under /repo or /verif is written except --out.
+Build area: $VERIF_KANI_BUILD (default /verif/build/kani; nothing under /tmp or /var/tmp is used):
+  ws-<hash of the repo path>/   the scratch workspace: rsync of the repo's working tree (without target/, .git/),
+                                 shim/frost_core_verif_shim.rs appended to the COPY's frost-core/src/lib.rs, root
+                                 Cargo.toml rewritten to members = ["frost-core", "verif-kani"], crate/ installed as
+                                 verif-kani, .cargo/config.toml with [net] offline = true.  Refreshed (rsync) at the
+                                 start of every invocation under an flock, kept between invocations as a cache.
+  target/                        cargo target dir shared by all invocations (registry dependencies compile once).
+`--fresh` uses a private temporary workspace + target dir under the build area instead and deletes both at the
+end (also on failure / SIGINT / SIGTERM); `--clean` deletes the whole build area and exits.
 
-JSON: {"meta": {...}, "results": [ {name, module, props, kind, bound, backs, tier, expect,
-        status: "pass"|"fail"|"timeout"|"error", checks_total, checks_failed, failed_checks: [...],
-        unwinding_failure: bool, only_negctl_failed: bool|null, time_s, cmd, counterexample?, detail?} ]}
+Every selected harness runs as its own `cargo kani` process (process group) under a wall-clock cap
+(quick 120 s, thorough 1800 s per harness), up to --jobs in parallel (default 12 quick / 4 thorough).
+
+JSON (--out): {"harnesses": [ {name, status: "pass"|"fail"|"timeout"|"error", expect: "pass"|"fail",
+        checks_total, checks_failed, failed_checks: [{description, location}], counterexample?,
+        bounded: bool, bound: str, kind: "complete"|"bounded", wall_s, max_rss_mb, props, backs, tier, module,
+        file, unwinding_failure: bool, only_negctl_failed: bool|null, cmd, detail?} ],
+       "cmd": <this command line>, "error": null | <build / script-level error text>, "meta": {...}}
 status: "pass" = VERIFICATION:- SUCCESSFUL; "fail" = VERIFICATION:- FAILED with at least one failed check that
 is not an unwinding assertion (a definite verdict; `unwinding_failure` says whether unwinding assertions failed
 as well); "timeout" = wall-clock cap hit; "error" = anything else (build error, reachable unsupported construct,
-CBMC crash, out of memory, ONLY unwinding assertions failed = bound too small).  A harness whose status != expect is what the caller treats as a finding.
+CBMC crash, out of memory, ONLY unwinding assertions failed = bound too small).
+A harness whose status != expect is what the caller treats as a finding (expect=fail marks the negative
+controls, which MUST fail).  For a "fail" of an expect=pass harness the harness is re-run with
+`-Z concrete-playback --concrete-playback=print` and the generated unit test is stored in `counterexample`.
 Exit code is 0 unless the script itself crashed.
 """
 import argparse
+import fcntl
+import hashlib
 import json
 import os
 import re
@@ -34,6 +50,7 @@ import signal
 import subprocess
 import sys
 import tempfile
+import threading
 import time
 from concurrent.futures import ThreadPoolExecutor
 
@@ -45,6 +62,8 @@ TIER_TIMEOUT = {"quick": 120, "thorough": 1800}
 TIMEOUT_OVERRIDE = None
 PLAYBACK_CONTROLS = False
 TARGET_DIR_ARGS = []
+BUILD_BASE = os.environ.get("VERIF_KANI_BUILD", "/verif/build/kani")
+DEFAULT_REPO = os.environ.get("VERIF_REPO", "/repo")
 META_RE = re.compile(r"^\s*//\s*@harness\s+(.*)$")
 
 _scratch_to_delete = []
@@ -141,19 +160,30 @@ def _sig(signum, _frame):
     sys.exit(128 + signum)
 
 
-def make_scratch(repo, reuse=None):
+def _check_location(path, what, repo=None):
+    real = os.path.realpath(path)
+    repo_real = os.path.realpath(repo or DEFAULT_REPO)
+    if real == repo_real or real.startswith(repo_real + "/") or real == "/repo" or real.startswith("/repo/"):
+        raise SystemExit(f"{what} {real} must not be inside the repo")
+    if (real == "/verif" or real.startswith("/verif/")) and not real.startswith("/verif/build/"):
+        raise SystemExit(f"{what} {real}: inside /verif only /verif/build/ is allowed")
+
+
+def make_scratch(repo, reuse=None, fresh=False):
     """Create (or refresh the sources of) the scratch workspace.  Returns its path."""
     if reuse:
         root = reuse
         os.makedirs(root, exist_ok=True)
-    else:
-        base = os.environ.get("TMPDIR") or "/var/tmp"
-        root = tempfile.mkdtemp(prefix="frost-kani-", dir=base)
+    elif fresh:
+        os.makedirs(BUILD_BASE, exist_ok=True)
+        root = tempfile.mkdtemp(prefix="fresh-", dir=BUILD_BASE)
         _scratch_to_delete.append(root)
-    real = os.path.realpath(root)
-    for forbidden in ("/repo", "/verif"):
-        if real == forbidden or real.startswith(forbidden + "/"):
-            raise SystemExit(f"scratch dir {real} must not be inside {forbidden}")
+    else:
+        os.makedirs(BUILD_BASE, exist_ok=True)
+        key = hashlib.sha1(os.path.realpath(repo).encode()).hexdigest()[:10]
+        root = os.path.join(BUILD_BASE, "ws-" + key)
+        os.makedirs(root, exist_ok=True)
+    _check_location(root, "scratch dir", repo)
     # 1. working-tree copy (no target/, no .git/)
     subprocess.run(
         ["rsync", "-a", "--delete", "--exclude", "/target", "--exclude", "/.git", "--exclude", "/verif-kani",
@@ -215,12 +245,40 @@ def _limits(mem_gb):
     return f
 
 
-def run_cmd(cmd, cwd, timeout, mem_gb=None):
-    """Run cmd in its own process group with a wall-clock cap.  Returns (rc|None on timeout, output, secs)."""
+def _session_rss_kb(sid):
+    """Sum of the resident set sizes (kB) of all processes in session `sid` (read from /proc)."""
+    total = 0
+    page_kb = os.sysconf("SC_PAGE_SIZE") // 1024
+    for d in os.listdir("/proc"):
+        if not d.isdigit():
+            continue
+        try:
+            with open(f"/proc/{d}/stat") as f:
+                st = f.read()
+            rest = st[st.rindex(")") + 2:].split()
+            if int(rest[3]) == sid:  # field 6 of stat = session id
+                total += int(rest[21]) * page_kb  # field 24 = rss in pages
+        except Exception:
+            continue
+    return total
+
+
+def run_cmd(cmd, cwd, timeout, mem_gb=None, rss_out=None):
+    """Run cmd in its own session with a wall-clock cap.  Returns (rc|None on timeout, output, secs).
+    If rss_out is a list, the peak summed RSS (MB) of the process tree, sampled once a second, is appended."""
     t0 = time.time()
     p = subprocess.Popen(cmd, cwd=cwd, env=kani_env(), stdout=subprocess.PIPE, stderr=subprocess.STDOUT,
                          text=True, errors="replace", preexec_fn=_limits(mem_gb))
     _children.add(p)
+    peak = [0]
+    stop = threading.Event()
+
+    def sampler():
+        while not stop.wait(1.0):
+            peak[0] = max(peak[0], _session_rss_kb(p.pid))
+
+    if rss_out is not None:
+        threading.Thread(target=sampler, daemon=True).start()
     try:
         out, _ = p.communicate(timeout=timeout)
         rc = p.returncode
@@ -232,6 +290,9 @@ def run_cmd(cmd, cwd, timeout, mem_gb=None):
         out, _ = p.communicate()
         rc = None
     finally:
+        stop.set()
+        if rss_out is not None:
+            rss_out.append(peak[0] // 1024)
         _children.discard(p)
         try:
             os.killpg(p.pid, signal.SIGKILL)  # stray cbmc / solver children
@@ -295,11 +356,15 @@ def run_harness(h, root, tier, mem_gb, playback, log_dir):
     timeout = (TIMEOUT_OVERRIDE or h["timeout"]
                or TIER_TIMEOUT["thorough" if (tier == "thorough" or h["tier"] == "thorough") else "quick"])
     cmd = harness_cmd(h, timeout)
-    rc, out, secs = run_cmd(cmd, root, timeout, mem_gb)
+    rss = []
+    rc, out, secs = run_cmd(cmd, root, timeout, mem_gb, rss_out=rss)
     res = {k: h[k] for k in ("name", "module", "props", "kind", "bound", "backs", "tier", "expect", "file")}
     res["cmd"] = "CARGO_NET_OFFLINE=true timeout %d %s" % (timeout, " ".join(shlex.quote(c) for c in cmd))
     res["time_s"] = round(secs, 1)
+    res["wall_s"] = res["time_s"]
     res["timeout_s"] = timeout
+    res["bounded"] = h["kind"] != "complete"
+    res["max_rss_mb"] = rss[0] if rss else None  # peak summed RSS of the process tree, 1 s sampling
     p = parse_kani_output(out)
     res["checks_total"] = p["checks_total"]
     res["checks_failed"] = p["checks_failed"]
@@ -348,15 +413,17 @@ def main():
     ap.add_argument("--props", default="", help="comma-separated property ids (C02,C12,...); default: all")
     ap.add_argument("--tier", choices=["quick", "thorough"], default="quick")
     ap.add_argument("--harness", action="append", default=[], help="run only this harness (repeatable)")
-    ap.add_argument("--jobs", type=int, default=4)
+    ap.add_argument("--jobs", type=int, default=0, help="parallel harness runs (default: 12 for quick, 4 for thorough)")
     ap.add_argument("--out", help="JSON result path")
-    ap.add_argument("--repo", default="/repo")
+    ap.add_argument("--repo", default=DEFAULT_REPO, help="repo working tree to copy (default: $VERIF_REPO or /repo)")
+    ap.add_argument("--fresh", action="store_true", help="private temporary workspace + target dir, deleted at the end")
+    ap.add_argument("--clean", action="store_true", help="delete the build area ($VERIF_KANI_BUILD) and exit")
     ap.add_argument("--list", action="store_true", help="print the selected harnesses as JSON and exit")
     ap.add_argument("--mem-gb", type=float, default=0.0,
                     help="address-space cap per harness process tree in GiB (0 = none; the wall-clock cap always applies)")
     ap.add_argument("--no-playback", action="store_true", help="do not re-run failed expect=pass harnesses for a counterexample")
-    ap.add_argument("--target-dir", help="persistent cargo target dir shared between invocations (keeps the compiled "
-                    "registry dependencies; default: inside the scratch tree, deleted with it). Must be outside /repo and /verif.")
+    ap.add_argument("--target-dir", help="cargo target dir (default: $VERIF_KANI_BUILD/target, shared between invocations; "
+                    "with --fresh or --scratch: inside the workspace)")
     ap.add_argument("--playback-controls", action="store_true",
                     help="also fetch a counterexample for failing expect=fail controls (debugging aid)")
     ap.add_argument("--scratch", help="(development) use/keep this scratch directory instead of a fresh temporary one")
@@ -366,12 +433,16 @@ def main():
     args = ap.parse_args()
 
     global TIMEOUT_OVERRIDE, PLAYBACK_CONTROLS, TARGET_DIR_ARGS
-    if args.target_dir:
-        td = os.path.realpath(args.target_dir)
-        for forbidden in ("/repo", "/verif"):
-            if td == forbidden or td.startswith(forbidden + "/"):
-                ap.error(f"--target-dir must not be inside {forbidden}")
-        TARGET_DIR_ARGS = ["--target-dir", td]
+    if args.clean:
+        _check_location(BUILD_BASE, "build area")
+        shutil.rmtree(BUILD_BASE, ignore_errors=True)
+        return 0
+    if not args.jobs:
+        args.jobs = 12 if (args.tier == "quick" and not args.harness) else 4
+    td = args.target_dir or (None if (args.fresh or args.scratch) else os.path.join(BUILD_BASE, "target"))
+    if td:
+        _check_location(td, "target dir")
+        TARGET_DIR_ARGS = ["--target-dir", os.path.realpath(td)]
     PLAYBACK_CONTROLS = args.playback_controls
     TIMEOUT_OVERRIDE = args.timeout or None
     props = [p.strip() for p in args.props.split(",") if p.strip()]
@@ -390,6 +461,7 @@ def main():
     meta = {"tool": "kani", "tier": args.tier, "props": props, "jobs": args.jobs, "repo": args.repo,
             "selected": [h["name"] for h in sel]}
     results = []
+    top_error = None
     try:
         try:
             meta["kani_version"] = subprocess.run(["cargo", "kani", "--version"], capture_output=True, text=True,
@@ -397,7 +469,12 @@ def main():
         except Exception as e:  # noqa
             meta["kani_version"] = f"unknown ({e})"
         if sel or args.build_only:
-            root = make_scratch(args.repo, args.scratch)
+            lock_f = None
+            if not args.fresh and not args.scratch:
+                os.makedirs(BUILD_BASE, exist_ok=True)
+                lock_f = open(os.path.join(BUILD_BASE, "setup.lock"), "w")
+                fcntl.flock(lock_f, fcntl.LOCK_EX)  # workspace refresh + pre-build are serialised
+            root = make_scratch(args.repo, args.scratch, args.fresh)
             meta["scratch"] = root
             # pre-build once so that the parallel runs do not each pay (and serialise on) the compilation
             # (dependencies + frost-core are compiled here; each harness run then only re-generates the small
@@ -408,13 +485,17 @@ def main():
                 cmd += ["--exact", "--harness", f"{sel[0]['module']}::{sel[0]['name']}"]
             rc, out, secs = run_cmd(cmd, root, 1800)
             meta["build"] = {"cmd": " ".join(cmd), "rc": rc, "time_s": round(secs, 1)}
+            if lock_f:
+                fcntl.flock(lock_f, fcntl.LOCK_UN)
+                lock_f.close()
             if rc != 0:
                 meta["build"]["output_tail"] = ANSI.sub("", out)[-6000:]
+                top_error = "harness crate failed to build: " + ANSI.sub("", out)[-3000:]
                 for h in sel:
                     r = {k: h[k] for k in ("name", "module", "props", "kind", "bound", "backs", "tier", "expect", "file")}
                     r.update(status="error", detail="harness crate failed to build (see meta.build)", checks_total=None,
                              checks_failed=None, failed_checks=[], unwinding_failure=False, only_negctl_failed=None,
-                             time_s=0.0, cmd=" ".join(cmd))
+                             time_s=0.0, wall_s=0.0, max_rss_mb=None, bounded=h["kind"] != "complete", cmd=" ".join(cmd))
                     results.append(r)
                 sel = []
             if not args.build_only:
@@ -434,7 +515,8 @@ def main():
     if args.out:
         os.makedirs(os.path.dirname(os.path.abspath(args.out)) or ".", exist_ok=True)
         with open(args.out, "w", encoding="utf-8") as f:
-            json.dump({"meta": meta, "results": results}, f, indent=1)
+            json.dump({"harnesses": results, "cmd": " ".join(shlex.quote(a) for a in [sys.executable] + sys.argv),
+                       "error": top_error, "meta": meta}, f, indent=1)
     for r in results:
         flag = "ok " if r["status"] == r["expect"] else "!! "
         print(f"{flag}{r['name']:<44} {r['status']:<8} expect={r['expect']:<5} {r['time_s']:>7.1f}s "
